@@ -22,15 +22,15 @@ type detScenario struct {
 }
 
 var importerArgs = map[string][]string{
-	"ch.cumulus":            {"--account", "Liabilities:Cumulus"},
-	"ch.postfinance":        {"--account", "Assets:Postfinance"},
-	"revolut":               {"--account", "Assets:Accounts:Revolut"},
-	"revolut2":              {"--account", "Assets:Accounts:Revolut", "--fee", "Expenses:Fees"},
-	"ch.supercard":          {"--account", "Liabilities:CreditCard"},
-	"ch.swisscard":          {"--account", "Liabilities:CreditCard"},
-	"ch.swisscard2":         {"--account", "Liabilities:CreditCard"},
-	"ch.viac":               {"--commodity", "Viac"},
-	"com.wise":              {"--account", "Assets:Accounts:Wise", "--fee", "Expenses:Fees", "--trading", "Expenses:Trading"},
+	"ch.cumulus":     {"--account", "Liabilities:Cumulus"},
+	"ch.postfinance": {"--account", "Assets:Postfinance"},
+	"revolut":        {"--account", "Assets:Accounts:Revolut"},
+	"revolut2":       {"--account", "Assets:Accounts:Revolut", "--fee", "Expenses:Fees"},
+	"ch.supercard":   {"--account", "Liabilities:CreditCard"},
+	"ch.swisscard":   {"--account", "Liabilities:CreditCard"},
+	"ch.swisscard2":  {"--account", "Liabilities:CreditCard"},
+	"ch.viac":        {"--commodity", "Viac"},
+	"com.wise":       {"--account", "Assets:Accounts:Wise", "--fee", "Expenses:Fees", "--trading", "Expenses:Trading"},
 }
 var importerDir = map[string]string{"ch.cumulus": "cumulus", "ch.postfinance": "postfinance", "revolut": "revolut", "revolut2": "revolut2", "ch.supercard": "supercard",
 	"ch.swisscard": "swisscard", "ch.swisscard2": "swisscard2", "ch.viac": "viac", "com.wise": "wise"}
